@@ -20,16 +20,28 @@ RULE = ("cases: byte strings of every length 0..300 (zeros / 0xff / random; thor
         "hash160 / double_sha256 / hash.ripemd160 / contrib.ripemd160 (murmur3 positional and seed= spelling in the murmur shards), "
         "edit it in place (one byte, whole content, back to an earlier content, grow/shrink) and ask again, repeat / alternate values, "
         "keep several ripemd160 objects alive and read their digests later in another order (twice), make a failing call "
-        "(None / str / int argument) in between; Bloom histories over 1..3 filters alive together (positional or keyword constructor): "
+        "(None / str / int argument; murmur3 also a None / str / float seed) in between; the objects ripemd160() returned are USED by "
+        "the caller the hashlib way between judged calls - update(chunk) (bytes, or a bytearray scribbled over afterwards), copy(), "
+        "hexdigest(), digest() twice, a refused update(None / str / int) - for objects made from the EMPTY input and from a non-empty "
+        "first chunk, followed by judged calls on the very bytes the object was made from and on other inputs (each use x first-chunk "
+        "class x configuration is a required counter; where the object offers no update()/copy()/hexdigest(), as the pure-Python "
+        "wrapper, the attempt is made and nothing is demanded of it); a bytearray argument must be left as it was and a returned "
+        "bytearray is scribbled over by the caller; Bloom histories over 1..3 filters alive together (positional or keyword constructor): "
         "adds through the four entry points interleaved between filters, the public attributes tweak / hash_function_count reassigned "
-        "between adds, filter_bytes replaced by a fresh zero array, a failing add (bad-checksum address, None, object without "
-        "tx_hash) in between, elements passed as a bytearray the caller scribbles over afterwards; an element the history has "
+        "between adds, filter_bytes replaced by a fresh zero array, a failing add (bad-checksum address, None to add_item / "
+        "add_hash160, a str item, object without tx_hash, an outpoint index of 2**32 / None that does not fit its uint32 field) in between, elements passed as a bytearray the caller scribbles over afterwards; an element the history has "
         "already added (to this filter or to another one) or one of a per-shard 'wallet' of 7 keys / outpoints shared by all "
         "histories of the process added again, possibly through another entry point; filter_bytes and "
         "filter_load_params() read at intermediate points and at the end. "
         "Coverage counters (each required, per RIPEMD-160 configuration where it applies): every operation, lengths 0/55/56/63/64/"
         "119/120 and residues 0,1,55,56,63 beyond 128 bytes, murmur3 tail classes 0..3 / seed classes / no-full-block with wide seed / "
         ">= 65,536 bytes, Bloom entry points, tweak classes, counts 1 and 50, sizes 1 and 36,000, repeated elements. "
+        "THE N-TH OPERATION: two long-run shards (native, pure-Python), each ONE process making 2**16+100 (thorough 2**17+100) "
+        "ripemd160(data).digest() calls on fresh inputs (hash160 / double_sha256 beside them), in the native one also ONE returned "
+        "RIPEMD-160 object fed 2**16+100 chunks by its caller against a running hashlib reference with fresh judged calls in between, "
+        "2**16+100 murmur3 calls on fresh (input, seed) pairs and ONE 36,000-byte Bloom filter receiving 2**16+100 distinct elements "
+        "through add_item / add_hash160 / add_spendable against a bit-by-bit model (the element's bits every add, the whole filter "
+        "every 1,024 adds and around every power of two). "
         "Non-trivial: every case (the empty input is a padding boundary); distinct by (operation, configuration, input / program).")
 ASSUMPTIONS = [
     "hashlib SHA-256 is correct; RIPEMD-160 oracle is hashlib/OpenSSL when present, cross-checked on every run against the "
@@ -45,7 +57,13 @@ ASSUMPTIONS = [
     "prescribes for it in that filter under its current parameters, like the first time",
     "filter_load_params() may announce the tweak it was given or its reduction mod 2^32 (nTweak is a uint32 on the wire); "
     "check_bit may answer with any true value",
-    "a bytearray is a byte string: its digest is the standard digest of its content at the time of the call",
+    "a bytearray is a byte string: its digest is the standard digest of its content at the time of the call, and hashing it "
+    "does not change it",
+    "an object returned by ripemd160(data) that accepts update(chunk) is a RIPEMD-160 object fed data || chunk: its digest() / "
+    "hexdigest() (either letter case) and those of its copy() are the standard digest of what it was fed; an update() that raises "
+    "AttributeError (method not offered) or refuses a non-bytes argument fed nothing; after any other exception from update(), or "
+    "an accepted non-bytes argument, that object is no longer judged; whatever the caller does with such an object has no "
+    "influence on any other call",
     "a Bloom filter announces filter_load_params(); an element added while (hash_function_count, tweak) had some value must set "
     "exactly the BIP37 positions for those values (the values a peer is told if the filter is loaded then); when a public "
     "attribute cannot be assigned (exception) or a deliberately invalid add does not raise, the history is dropped, not judged",
@@ -53,7 +71,9 @@ ASSUMPTIONS = [
 EXPLANATION = ("every digest / hash / filter returned by pycoin is compared byte for byte with the reference; in the "
                "pure-Python configurations a tap on pycoin.contrib.ripemd160.ripemd160 must see the calls made through "
                "hash160 and through ripemd160(data) (otherwise the configuration was not exercised and the run is inconclusive); "
-               "likewise a tap on hashlib.new must see pycoin obtain RIPEMD-160 objects from hashlib in the native configuration; "
+               "a tap on hashlib.new reports (in a note, not as a requirement: a tree may clone a template object instead of calling "
+               "hashlib.new every time) whether pycoin obtained its RIPEMD-160 objects from hashlib in the native configuration - the "
+               "native digests themselves are required and judged; "
                "in a history the "
                "reference is evaluated on a snapshot of the caller's buffer taken just before each call and a Bloom model "
                "(one bit set per filter) follows every step")
@@ -93,6 +113,11 @@ def plan(tier, seed):
     nb = 5 if q else 12
     for p in range(nb):
         shards.append({"kind": "bloom", "config": "native", "n": 450 if q else 60000, "n_hist": 400 if q else 50000, "part": p, "label": "bloom%d" % p})
+    # the N-th operation: more than 2**16 (thorough 2**17) operations on one process / one object, one shard per RIPEMD-160
+    # configuration (murmur3 and the one Bloom filter ride in the native one)
+    nlong = (1 << 16) + 100 if q else (1 << 17) + 100
+    shards.append({"kind": "longrun", "config": "native", "env": {}, "n": nlong, "part": 0, "label": "longrun-native"})
+    shards.append({"kind": "longrun", "config": "python", "env": dict(ENV_PY), "n": nlong, "part": 0, "label": "longrun-python"})
     return shards
 
 
@@ -142,6 +167,20 @@ def _tap_native(m):
         return h
     new._c19_tap = holder
     hashlib.new = new
+
+
+def _note_native_tap(rec, M):
+    """The hashlib.new tap in the native configuration is evidence, not a requirement: say what it saw."""
+    cfg = M.config
+    missing = [w for w in ("via_hash160", "via_ripemd160") if not rec.counters.get("tap:hashlib.ripemd160.%s:%s" % (w, cfg))]
+    st, h = observe(M.hash.ripemd160, b"abc")
+    kind = "%s.%s" % (type(h).__module__, type(h).__name__) if st == "ok" else "unobtainable"
+    rec.ev("native:ripemd160_object_is_" + ("hashlib_object" if kind.startswith(("_hashlib.", "hashlib.")) else "other_object"))
+    if missing:
+        rec.ev("native:hashlib.new_tap_silent")
+        rec.note("native configuration: the hashlib.new tap saw no RIPEMD-160 request during %s (implementation in use: %s, "
+                 "object returned: %s); the native digests were nevertheless observed and judged against the reference, "
+                 "so this is reported, not required" % (" / ".join(missing), M.impl, kind))
 
 
 def _imports(config, rec):
@@ -524,6 +563,9 @@ def run_bloom(spec, rec, M):
 # -- call histories: state between calls, reused objects, caller-owned buffers -----------------------
 
 _BAD_ARGS = {"none": None, "str": "abc", "int": 7}
+_BAD_SEEDS = {"none": None, "str": "7", "float": 1.5}
+_OBJ_USES = ("update", "copy", "hexdigest", "digest_twice", "refused_update")
+_FIRST_CHUNKS = ("first_chunk_empty", "first_chunk_nonempty")
 _HLENS = [0, 1, 2, 3, 4, 5, 7, 8, 20, 32, 33, 36, 55, 56, 63, 64, 65, 119, 120, 128]
 
 
@@ -548,15 +590,32 @@ def _same(got, exp, n):
     return isinstance(got, (bytes, bytearray)) and len(got) == n and bytes(got) == exp
 
 
+def _scribble(b):
+    for j in range(len(b)):
+        b[j] ^= 0xa5
+
+
 def check_history(case, rec, M):
     """case: steps = ["new", slot, data] | ["edit", slot, offset, data] | ["set", slot, data] |
-    ["call", fn, slot, "buf"|"bytes", seed] | ["hold", h, slot] | ["digest", h] | ["bad", fn, what].
-    Every value returned must be the standard one for the content the buffer had when the call was made."""
+    ["call", fn, slot, "buf"|"bytes", seed] | ["calld", fn, data] | ["hold", h, slot] | ["holdd", h, data] | ["digest", h] |
+    ["upd", h, data, "buf"|"bytes"] | ["badupd", h, what] | ["copy", h, h2] | ["hex", h] | ["bad", fn, what] | ["badseed", fn, what].
+    Every value returned must be the standard one for the content the buffer had when the call was made; a RIPEMD-160 object
+    the caller keeps and uses (update / copy / hexdigest / digest several times) answers for the bytes it was fed and has no
+    influence on any other call."""
     fns = _fn_table(M)
     steps = case["steps"]
-    rec.case((case["kind"], M.config, repr(steps)))
+    cfg = M.config
+    rec.case((case["kind"], cfg, repr(steps)))
     bufs, held, seen = {}, {}, []
     edited = False
+    used = None                                                   # first-chunk class of the last object the caller used
+
+    def use(ent, what):
+        fc = _FIRST_CHUNKS[1 if ent["first"] else 0]
+        rec.ev("history.ripemd160_object.%s" % what)
+        rec.ev("config:%s:history.ripemd160_object.%s.%s" % (cfg, what, fc))
+        return fc
+
     for st in steps:
         op = st[0]
         if op == "new":
@@ -571,41 +630,112 @@ def check_history(case, rec, M):
         elif op == "bad":
             rec.ev("history.call_with_invalid_argument")
             observe(fns[st[1]][0], _BAD_ARGS[st[2]], 0)              # nothing is demanded of this call
-        elif op == "hold":
-            snap = bytes(bufs[st[2]])
+        elif op == "badseed":
+            rec.ev("history.call_with_invalid_seed")
+            observe(fns[st[1]][0], bytes(st[3]), _BAD_SEEDS[st[2]])  # nothing is demanded of this call
+        elif op in ("hold", "holdd"):
+            snap = bytes(bufs[st[2]]) if op == "hold" else bytes(st[2])
             rec.ev("history.ripemd160_object_kept")
             s_, h = observe(M.hash.ripemd160, snap)
-            held[st[1]] = (s_, h, snap)
+            held[st[1]] = {"st": s_, "obj": h, "snap": snap, "first": snap, "judged": True, "updated": False}
+        elif op in ("upd", "badupd", "copy", "hex"):
+            ent = held.get(st[1])
+            if ent is None or ent["st"] != "ok":
+                continue                                         # the object could not be obtained: judged at its "digest" step
+            if op == "upd":
+                data = bytes(st[2])
+                arg = bytearray(data) if st[3] == "buf" else data
+                used = use(ent, "update")
+                s2, r = observe(lambda: ent["obj"].update(arg))
+                if st[3] == "buf":
+                    rec.ev("history.ripemd160_object.update.callers_bytearray_overwritten_afterwards")
+                    _scribble(arg)
+                if s2 == "ok":
+                    rec.ev("history.ripemd160_object.update_accepted:" + cfg)
+                    ent["snap"] += data
+                    ent["updated"] = True
+                elif isinstance(r, AttributeError):
+                    rec.ev("history.ripemd160_object.update_not_offered:" + cfg)       # nothing was fed
+                else:
+                    rec.ev("history.ripemd160_object.update_raised:" + cfg)             # content unknown from here on
+                    ent["judged"] = False
+            elif op == "badupd":
+                used = use(ent, "refused_update")
+                s2, r = observe(lambda: ent["obj"].update(_BAD_ARGS[st[2]]))
+                if s2 == "ok":
+                    ent["judged"] = False                        # it accepted something that is not a byte string: unjudged
+            elif op == "copy":
+                used = use(ent, "copy")
+                s2, o2 = observe(lambda: ent["obj"].copy())
+                if s2 == "ok":
+                    rec.ev("history.ripemd160_object.copy_obtained:" + cfg)
+                    held[st[2]] = dict(ent, obj=o2)
+                else:
+                    rec.ev("history.ripemd160_object.copy_not_offered:" + cfg)
+            else:
+                used = use(ent, "hexdigest")
+                s2, r = observe(lambda: ent["obj"].hexdigest())
+                if s2 != "ok":
+                    rec.ev("history.ripemd160_object.hexdigest_not_offered:" + cfg)
+                elif ent["judged"]:
+                    exp = RR.digest(ent["snap"])
+                    rec.ev("history.ripemd160_object.hexdigest_judged:" + cfg)
+                    if not isinstance(r, str) or r.lower() != exp.hex():
+                        rec.violation("history.ripemd160.%s.object_hexdigest_mismatch%s" % (cfg, ".after_update" if ent["updated"] else ""),
+                                      case, r, exp.hex())
+                        return
         elif op == "digest":
-            s_, h, snap = held[st[1]]
+            ent = held.get(st[1])
+            if ent is None or not ent["judged"]:
+                continue
+            s_, h, snap = ent["st"], ent["obj"], ent["snap"]
             exp = RR.digest(snap)
+            if s_ == "ok":
+                used = use(ent, "digest_twice")
             for again in (False, True):
                 rec.ev("history.ripemd160_object.digest_later")
-                rec.ev("config:%s:history.ripemd160_object.digest_later" % M.config)
+                rec.ev("config:%s:history.ripemd160_object.digest_later" % cfg)
                 s2, got = (s_, h) if s_ != "ok" else observe(h.digest)
                 if s2 != "ok" or not _same(got, exp, 20):
                     stale = s2 == "ok" and any(_same(got, RR.digest(o), 20) for o in seen if o != snap)
-                    rec.violation("history.ripemd160.%s.object_digest_%s" % (M.config, "of_other_input" if stale else "mismatch")
-                                  + (".second_read" if again else ""), case, got, exp)
+                    rec.violation("history.ripemd160.%s.object_digest_%s" % (cfg, "of_other_input" if stale else "mismatch")
+                                  + (".after_update" if ent["updated"] else "") + (".second_read" if again else ""), case, got, exp)
                     return
+                if isinstance(got, bytearray):                   # a mutable answer belongs to the caller
+                    rec.ev("history.returned_bytearray_overwritten_by_caller")
+                    _scribble(got)
             seen.append(snap)
         else:
-            fn, slot, how, seed = st[1], st[2], st[3], st[4]
+            if op == "calld":
+                fn, slot, how, seed = st[1], None, "bytes", None
+                snap = bytes(st[2])
+            else:
+                fn, slot, how, seed = st[1], st[2], st[3], st[4]
+                snap = bytes(bufs[slot])
             seed = None if seed is None else int(seed)
             call, oracle, n, name = fns[fn]
-            snap = bytes(bufs[slot])
             exp = oracle(snap, seed)
             rec.ev("history.%s.%s" % (fn, "callers_bytearray" if how == "buf" else "bytes"))
             if case["kind"] == "dhist":
-                rec.ev("config:%s:history.%s" % (M.config, fn))
+                rec.ev("config:%s:history.%s" % (cfg, fn))
+                if used is not None:
+                    rec.ev("config:%s:history.judged_call_after_object_used.%s" % (cfg, used))
             s_, got = observe(call, bufs[slot] if how == "buf" else snap, seed)
             if s_ != "ok" or not _same(got, exp, n):
                 stale = s_ == "ok" and any(_same(got, oracle(o, seed), n) for o in seen if o != snap)
                 mech = "history.%s.%s" % (name, "value_of_earlier_content" if stale else "mismatch")
                 if edited and stale:
                     mech += ".after_inplace_edit"
+                if used is not None:
+                    mech += ".after_returned_object_used." + used
                 rec.violation(mech, case, got, exp)
                 return
+            if how == "buf" and bytes(bufs[slot]) != snap:
+                rec.violation("history.%s.callers_bytearray_modified" % name, case, bytes(bufs[slot]), snap)
+                return
+            if isinstance(got, bytearray):
+                rec.ev("history.returned_bytearray_overwritten_by_caller")
+                _scribble(got)
             seen.append(snap)
 
 
@@ -657,10 +787,53 @@ def _rand_history(rng, kind, fns, seeded):
         contents[s] = data
         pool.append(data)
         steps.append(["new", s, data])
-    n = nslots + rng.randrange(4, 15)
-    last, held, nh = None, [], 0
+    n = nslots + (rng.randrange(4, 15) if seeded else rng.randrange(5, 18))
+    last, held, nh, firsts = None, [], 0, {}
     while len(steps) < n:
         r = rng.random()
+        if not seeded and rng.random() < 0.22:
+            # a RIPEMD-160 object the caller keeps and uses the hashlib way, judged calls in between
+            q = rng.random()
+            if not held or q < 0.3:
+                if rng.random() < 0.45:
+                    slot = rng.randrange(nslots)
+                    steps.append(["hold", nh, slot])
+                    firsts[nh] = contents[slot]
+                else:
+                    data = b"" if rng.random() < 0.55 else _rb(rng, rng.choice([1, 20, 32, 55, 56, 63, 64, 65, rng.randrange(1, 130)]))
+                    steps.append(["holdd", nh, data])
+                    firsts[nh] = data
+                held.append(nh)
+                h = nh
+                nh += 1
+                if rng.random() < 0.5:
+                    continue
+                q = rng.uniform(0.3, 1.0)                         # ... and use it right away
+            else:
+                h = rng.choice(held)
+            if q < 0.5:
+                chunk = _rb(rng, rng.choice([0, 1, 8, 20, 32, 55, 56, 63, 64, 65, rng.randrange(0, 130)]))
+                steps.append(["upd", h, chunk, rng.choice(["bytes", "bytes", "buf"])])
+            elif q < 0.62:
+                steps.append(["copy", h, nh])
+                firsts[nh] = firsts[h]
+                held.append(nh)
+                nh += 1
+            elif q < 0.76:
+                steps.append(["hex", h])
+            elif q < 0.88:
+                steps.append(["badupd", h, rng.choice(sorted(_BAD_ARGS))])
+            else:
+                steps.append(["digest", h])
+                if rng.random() < 0.5:
+                    held.remove(h)
+            if rng.random() < 0.65:                               # a judged call right after the caller touched the object
+                fn = rng.choice(["ripemd160", "ripemd160", "hash160", "contrib"])
+                if rng.random() < 0.5:
+                    steps.append(["calld", fn, firsts[h]])        # ... on the very bytes the object was made from
+                else:
+                    steps.append(["call", fn, rng.randrange(nslots), rng.choice(["buf", "bytes"]), None])
+            continue
         if last is not None and r < 0.35:
             fn, s, seed = last
             steps.append(_rand_edit(rng, s, contents, pool))
@@ -679,15 +852,11 @@ def _rand_history(rng, kind, fns, seeded):
             last = (fn, s, seed)
         elif r < 0.82:
             steps.append(_rand_edit(rng, rng.randrange(nslots), contents, pool))
-        elif r < 0.93 and not seeded:
-            if held and rng.random() < 0.4:
-                steps.append(["digest", held.pop(rng.randrange(len(held)))])
-            else:
-                steps.append(["hold", nh, rng.randrange(nslots)])
-                held.append(nh)
-                nh += 1
         elif r >= 0.93:
-            steps.append(["bad", rng.choice(fns), rng.choice(sorted(_BAD_ARGS))])
+            if seeded and rng.random() < 0.5:
+                steps.append(["badseed", rng.choice(fns), rng.choice(sorted(_BAD_SEEDS)), _rb(rng, rng.choice([1, 2, 3, 5, 6, 7, 9]))])
+            else:
+                steps.append(["bad", rng.choice(fns), rng.choice(sorted(_BAD_ARGS))])
     rng.shuffle(held)
     for h in held:
         steps.append(["digest", h])
@@ -832,8 +1001,19 @@ def check_bloom_history(case, rec, M):
                 s_, r = observe(bf.add_address, good[:-1] + ("2" if good[-1] != "2" else "3"))
             elif how == "none":
                 s_, r = observe(bf.add_item, None)
+            elif how == "hash160_none":
+                s_, r = observe(bf.add_hash160, None)
+            elif how == "str":
+                s_, r = observe(bf.add_item, "abcdefg")            # a str where bytes are expected
+            elif how == "index_2**32":                            # an outpoint index that does not fit its uint32 field
+                s_, r = observe(lambda: bf.add_spendable(M.Spendable(coin_value=1000, script=b"\x51", tx_hash=bytes(range(32)),
+                                                                     tx_out_index=1 << 32)))
+            elif how == "index_none":
+                s_, r = observe(lambda: bf.add_spendable(M.Spendable(coin_value=1000, script=b"\x51", tx_hash=bytes(range(32)),
+                                                                     tx_out_index=None)))
             else:
                 s_, r = observe(bf.add_spendable, object())
+            rec.ev("history.BloomFilter.failing_add." + how)
             if s_ == "ok":
                 rec.ev("history.BloomFilter.invalid_add_did_not_raise")      # element unknown: not judged
                 return
@@ -871,6 +1051,9 @@ def _rand_item(rng, used=None, wallet=None):
     if r < 0.85:
         return ["address", _rb(rng, 20), rng.choice([0, 5, 111, 196]), False]
     return ["spendable", _rb(rng, 32), rng.choice([0, 1, 2, 255, 256, 65535, (1 << 32) - 1, rng.getrandbits(32)]), False]
+
+
+_BLOOM_BAD_ADDS = ["address", "none", "spendable", "hash160_none", "str", "index_2**32", "index_none"]
 
 
 def _rand_k(rng):
@@ -922,7 +1105,7 @@ def _rand_bhist(rng, wallet=None):
         elif r < 0.85:
             steps.append(["clear", f])
         elif r < 0.92:
-            steps.append(["bad", f, rng.choice(["address", "none", "spendable"])])
+            steps.append(["bad", f, rng.choice(_BLOOM_BAD_ADDS)])
         else:
             steps.append(["check", f])
     if not any(s[0] == "add" for s in steps):
@@ -941,6 +1124,132 @@ def run_bloom_histories(spec, rec, M):
         check_bloom_history(c, rec, M)
         if i == 0 and spec["part"] == 0:
             rec.sample({"op": "BloomFilter history", "filters": c["filters"], "steps": c["steps"]})
+
+
+# -- the N-th operation: one process, one object, more than 2**16 uses -------------------------------
+
+def _near_power_of_two(i):
+    return any(abs(i - (1 << j)) <= 2 for j in range(8, 18))
+
+
+def _nth(i):
+    """Part of the mechanism key: did the fault show only from the 2**16-th use on."""
+    return ".from_use_65535_on" if i >= 65534 else ""
+
+
+def run_longrun(spec, rec):
+    cfg, N = spec["config"], int(spec["n"])
+    rec.require("longrun:%s:ripemd160(data).digest()" % cfg, "longrun:%s:hash160" % cfg, "longrun:%s:more_than_2**16_operations_in_one_process" % cfg)
+    M = _imports(cfg, rec)
+    if M is None:
+        return
+    one_block = cfg != "native"                                   # the bundled implementation costs ~0.3 ms a block
+    # 1. the module-level functions, a fresh input every call
+    nv = 0
+    for i in range(N):
+        L = (i * 7) % 56 if one_block else (i * 7) % 131
+        d = ((i.to_bytes(4, "little") + b"\x5a") * (L // 5 + 1))[:L]
+        s_, got = observe(lambda: M.hash.ripemd160(d).digest())
+        if s_ != "ok" or not _eqb(got, RR.digest(d)):
+            rec.violation("longrun.ripemd160.%s.mismatch%s" % (cfg, _nth(i)), {"kind": "longrun", "config": cfg, "op": "ripemd160", "call": i, "data": d},
+                          got, RR.digest(d))
+            nv += 1
+        if not one_block or i % 8 == 0 or _near_power_of_two(i):
+            rec.ev("longrun:%s:hash160" % cfg)
+            s_, got = observe(M.hash.hash160, d)
+            if s_ != "ok" or not _eqb(got, RR.hash160(d)):
+                rec.violation("longrun.hash160.%s.mismatch%s" % (cfg, _nth(i)), {"kind": "longrun", "config": cfg, "op": "hash160", "call": i, "data": d},
+                              got, RR.hash160(d))
+                nv += 1
+            rec.ev("longrun:%s:double_sha256" % cfg)
+            s_, got = observe(M.hash.double_sha256, d)
+            if s_ != "ok" or not _eqb(got, RR.double_sha256(d)):
+                rec.violation("longrun.double_sha256.mismatch" + _nth(i), {"kind": "longrun", "config": cfg, "op": "double_sha256", "call": i, "data": d},
+                              got, RR.double_sha256(d))
+                nv += 1
+        if nv > 8:
+            break
+    else:
+        rec.ev("longrun:%s:more_than_2**16_operations_in_one_process" % cfg)
+    rec.ev("longrun:%s:ripemd160(data).digest()" % cfg, i + 1)
+    rec.case(("longrun", cfg, "functions", N), n=i + 1)
+    # 2. ONE object returned by ripemd160(), fed more than 2**16 times by its caller (where it offers update());
+    #    running hashlib reference; a judged fresh call now and then
+    s_, h = observe(M.hash.ripemd160, b"")
+    if s_ == "ok" and callable(getattr(h, "update", None)) and RR.native_available():
+        rec.require("longrun:%s:one_object.more_than_2**16_updates" % cfg)
+        ref = RR._hashlib_new("ripemd160")
+        for i in range(N):
+            chunk = (i.to_bytes(3, "little") * 3)[:i % 10]
+            s_, r = observe(h.update, chunk)
+            ref.update(chunk)
+            s2, got = observe(h.digest)
+            if s_ != "ok" or s2 != "ok" or not _eqb(got, ref.digest()):
+                rec.violation("longrun.ripemd160.%s.one_object_fed_incrementally.mismatch%s" % (cfg, _nth(i)),
+                              {"kind": "longrun", "config": cfg, "op": "one_object_update", "call": i}, got if s_ == "ok" else r, ref.digest())
+                break
+            if i % 64 == 0 or _near_power_of_two(i):
+                d = chunk[:i % 3]
+                s_, got = observe(lambda: M.hash.ripemd160(d).digest())
+                if s_ != "ok" or not _eqb(got, RR.digest(d)):
+                    rec.violation("longrun.ripemd160.%s.mismatch.while_callers_object_is_fed%s" % (cfg, _nth(i)),
+                                  {"kind": "longrun", "config": cfg, "op": "ripemd160_beside_one_object", "call": i, "data": d}, got, RR.digest(d))
+                    break
+        else:
+            rec.ev("longrun:%s:one_object.more_than_2**16_updates" % cfg)
+        rec.case(("longrun", cfg, "one_object", N), n=i + 1)
+    else:
+        rec.ev("longrun:%s:one_object.update_not_offered" % cfg)
+    if cfg != "native":
+        return
+    # 3. murmur3, a fresh (input, seed) every call
+    B = _bloom_imports(rec)
+    rec.require("longrun:murmur3.more_than_2**16_calls", "longrun:BloomFilter.more_than_2**16_adds_to_one_filter")
+    for i in range(N):
+        d = (i.to_bytes(3, "little") * 3)[:i % 10]
+        seed = (i * 0x9E3779B1) & 0xffffffff if i % 5 else (i << 32) + 7
+        exp = RM.murmur3_32(d, seed)
+        s_, got = observe(B.bloom.murmur3, d, seed)
+        if s_ != "ok" or got != exp or isinstance(got, bool):
+            rec.violation("longrun.murmur3.mismatch" + _nth(i), {"kind": "longrun", "config": cfg, "op": "murmur3", "call": i, "data": d, "seed": seed}, got, exp)
+            break
+    else:
+        rec.ev("longrun:murmur3.more_than_2**16_calls")
+    rec.case(("longrun", "murmur3", N), n=i + 1)
+    # 4. ONE Bloom filter, more than 2**16 distinct elements; model kept bit by bit
+    size, k, tweak = RM.MAX_BLOOM_FILTER_SIZE, 2, 0x5EED1234
+    s_, bf = observe(B.bloom.BloomFilter, size, k, tweak)
+    if s_ != "ok":
+        rec.violation("bloom.constructor_raises", {"kind": "longrun", "config": cfg, "op": "bloom"}, bf, "filter")
+        return
+    model = bytearray(size)
+    for i in range(N):
+        if i % 64 == 63:
+            e, idx = RR.double_sha256(i.to_bytes(4, "little")), i
+            s_, r = observe(lambda: bf.add_spendable(B.Spendable(coin_value=1, script=b"\x51", tx_hash=e, tx_out_index=idx)))
+            e += idx.to_bytes(4, "little")
+        elif i % 16 == 15:
+            e = (i.to_bytes(4, "little") * 5)
+            s_, r = observe(bf.add_hash160, e)
+        else:
+            e = i.to_bytes(4, "little") + b"element"[:i % 8]
+            s_, r = observe(bf.add_item, e)
+        pos = RM.bip37_positions(e, size, k, tweak)
+        for p_ in pos:
+            model[p_ >> 3] |= 1 << (p_ & 7)
+        ok = s_ == "ok"
+        if ok:
+            s2, fb = observe(lambda: bf.filter_bytes)
+            ok = s2 == "ok" and len(fb) == size and all(fb[p_ >> 3] >> (p_ & 7) & 1 for p_ in pos)
+            if ok and (i % 1024 == 0 or _near_power_of_two(i) or i == N - 1):
+                ok = bytes(fb) == bytes(model)
+        if not ok:
+            rec.violation("longrun.bloom.one_filter.%s%s" % ("add_raises" if s_ != "ok" else "bits_mismatch", _nth(i)),
+                          {"kind": "longrun", "config": cfg, "op": "bloom", "add": i, "element": e}, r if s_ != "ok" else None, None)
+            break
+    else:
+        rec.ev("longrun:BloomFilter.more_than_2**16_adds_to_one_filter")
+    rec.case(("longrun", "bloom", N), n=i + 1)
 
 
 # ---------------------------------------------------------------------------------------------
@@ -967,8 +1276,10 @@ def run_shard(spec, rec):
             # the configuration counts as exercised only if hash160 and ripemd160(data) really went through the bundled implementation
             rec.require("tap:contrib.ripemd160.via_hash160:" + cfg, "tap:contrib.ripemd160.via_ripemd160:" + cfg)
         elif RR.native_available():
-            # ... and the native one only if pycoin really obtained its RIPEMD-160 objects from hashlib
-            rec.require("tap:hashlib.ripemd160.via_hash160:" + cfg, "tap:hashlib.ripemd160.via_ripemd160:" + cfg)
+            # the native one: the digests themselves are what is judged (required below); whether pycoin obtains its
+            # RIPEMD-160 objects through hashlib.new on every call is an implementation choice (a tree may keep a
+            # template object and copy it) - the tap is reported in a note, it does not decide the run
+            pass
         else:
             rec.note("this interpreter has no native RIPEMD-160: the 'native' configuration runs the fallback")
         # every operation and every padding boundary the property names, in THIS configuration (counters are summed over shards)
@@ -980,7 +1291,16 @@ def run_shard(spec, rec):
             rec.require(
                         *["history.%s.%s" % (f, how) for f in ("ripemd160", "hash160", "double_sha256", "contrib")
                           for how in ("callers_bytearray", "bytes")])
+            # the caller uses the objects ripemd160() returned (update / copy / hexdigest / digest twice / a refused update),
+            # made from an empty and from a non-empty first chunk, with judged calls afterwards - in THIS configuration
+            rec.require("history.call_with_invalid_argument",
+                        *["config:%s:history.ripemd160_object.%s.%s" % (cfg, u, fc) for u in _OBJ_USES for fc in _FIRST_CHUNKS],
+                        *["config:%s:history.judged_call_after_object_used.%s" % (cfg, fc) for fc in _FIRST_CHUNKS])
             run_histories(spec, rec, M, "dhist")
+        if cfg == "native" and RR.native_available():
+            _note_native_tap(rec, M)
+    elif kind == "longrun":
+        run_longrun(spec, rec)
     elif kind == "murmur":
         rec.require("murmur3", "murmur3.default_seed", "murmur3.seed_wider_than_32_bits", "murmur3.seed_top_bit_set",
                     "murmur3.seed_31_bits", "murmur3.no_full_block.seed_wider_than_32_bits", "murmur3.input_65536_bytes_or_more",
@@ -989,6 +1309,7 @@ def run_shard(spec, rec):
         run_murmur(spec, rec, M)
         if spec.get("n_hist"):
             rec.require(*["history.%s.%s" % (f, how) for f in ("murmur3", "murmur3_kw") for how in ("callers_bytearray", "bytes")])
+            rec.require("history.call_with_invalid_argument", "history.call_with_invalid_seed")
             run_histories(spec, rec, M, "mhist")
     else:
         rec.require(*_BLOOM_REQUIRED)
@@ -998,6 +1319,7 @@ def run_shard(spec, rec):
             rec.require("history.BloomFilter.tweak_reassigned", "history.BloomFilter.hash_function_count_reassigned",
                         "history.BloomFilter.filter_bytes", "history.BloomFilter.filter_load_params",
                         "history.BloomFilter.filter_bytes_replaced", "history.BloomFilter.failing_add",
+                        *["history.BloomFilter.failing_add." + h for h in _BLOOM_BAD_ADDS],
                         "history.BloomFilter.callers_buffer_overwritten_after_add",
                         "history.BloomFilter.element_added_again_to_same_filter",
                         "history.BloomFilter.element_already_in_another_filter",
@@ -1022,6 +1344,10 @@ def replay_case(case, rec):
             check_history(case, rec, M)
         elif M is not None and kind == "digest":
             check_digests(_fix(case), rec, M, want_pure_check=case["len"] <= 2000)
+    elif kind == "longrun":
+        # the fault depends on the number of operations made before: run the whole long-run workload of that configuration again
+        run_longrun({"config": case.get("config", "native"), "n": max(int(case.get("call", case.get("add", 0))) + 200, (1 << 16) + 100),
+                     "seed": 0, "tier": "quick", "shard": 0}, rec)
     elif kind == "murmur":
         M = _bloom_imports(rec)
         check_murmur(_fix(case), int(case["seed"]), rec, M)
